@@ -197,6 +197,11 @@ fn run_swh<'gc, H: Part + Collect<'gc>, E: Part + Collect<'gc>>(mc: &'gc Mutatio
             obs::capture_on();
             let b = $b;
             ex.block = obs::capture_off_seq().last().copied();
+            // quarantine and poison the block as soon as it is released, so that anything the builder
+            // touches after giving the memory back reads poison
+            if let Some((b, _)) = ex.block {
+                obs::watch(b, b);
+            }
             match stage {
                 Stage::AbandonEmpty => {
                     drop(b);
@@ -294,6 +299,11 @@ fn run_slice<'gc, E: Part + Collect<'gc>>(mc: &'gc Mutation<'gc>, base: u32, len
             obs::capture_on();
             let b = $b;
             ex.block = obs::capture_off_seq().last().copied();
+            // quarantine and poison the block as soon as it is released, so that anything the builder
+            // touches after giving the memory back reads poison
+            if let Some((b, _)) = ex.block {
+                obs::watch(b, b);
+            }
             match stage {
                 Stage::AbandonEmpty | Stage::AbandonAfterHeader => {
                     drop(b);
@@ -359,6 +369,11 @@ fn run_copy<'gc>(mc: &'gc Mutation<'gc>, base: u32, len: usize, stage: Stage, er
     obs::capture_on();
     let b = GcSliceBuilder::<ECopy>::new(len);
     ex.block = obs::capture_off_seq().last().copied();
+            // quarantine and poison the block as soon as it is released, so that anything the builder
+            // touches after giving the memory back reads poison
+            if let Some((b, _)) = ex.block {
+                obs::watch(b, b);
+            }
     if src_len == len {
         let g = b.copy_slice(mc, &src);
         ex.completed = true;
@@ -396,11 +411,21 @@ fn run_str<'gc>(mc: &'gc Mutation<'gc>, base: u32, len: usize, stage: Stage, met
                 obs::capture_on();
                 let b = GcStrBuilder::<u64>::new_with_type_meta::<MetaA>(len);
                 ex.block = obs::capture_off_seq().last().copied();
+            // quarantine and poison the block as soon as it is released, so that anything the builder
+            // touches after giving the memory back reads poison
+            if let Some((b, _)) = ex.block {
+                obs::watch(b, b);
+            }
                 drop(b);
             } else {
                 obs::capture_on();
                 let b = GcStrBuilder::new(len);
                 ex.block = obs::capture_off_seq().last().copied();
+            // quarantine and poison the block as soon as it is released, so that anything the builder
+            // touches after giving the memory back reads poison
+            if let Some((b, _)) = ex.block {
+                obs::watch(b, b);
+            }
                 drop(b);
             }
             (ex, None)
@@ -409,6 +434,11 @@ fn run_str<'gc>(mc: &'gc Mutation<'gc>, base: u32, len: usize, stage: Stage, met
             obs::capture_on();
             let b = GcStrBuilder::new(len);
             ex.block = obs::capture_off_seq().last().copied();
+            // quarantine and poison the block as soon as it is released, so that anything the builder
+            // touches after giving the memory back reads poison
+            if let Some((b, _)) = ex.block {
+                obs::watch(b, b);
+            }
             let r = catch_unwind(AssertUnwindSafe(|| b.copy_str(mc, &s)));
             match r {
                 Ok(_) => errs.push(format!("{}: copy_str accepted a source of length {src_len} for a str of length {len}", ex.class)),
@@ -428,6 +458,11 @@ fn run_str<'gc>(mc: &'gc Mutation<'gc>, base: u32, len: usize, stage: Stage, met
                 obs::capture_on();
                 let b = GcStrBuilder::<u64>::new_with_type_meta::<MetaA>(len);
                 ex.block = obs::capture_off_seq().last().copied();
+            // quarantine and poison the block as soon as it is released, so that anything the builder
+            // touches after giving the memory back reads poison
+            if let Some((b, _)) = ex.block {
+                obs::watch(b, b);
+            }
                 let g = b.copy_str(mc, &s);
                 if &*g != s.as_str() || *Gc::type_metadata(g) != 0xfeed_beef_1234_5678 {
                     errs.push(format!("{}: contents or type metadata differ", ex.class));
@@ -437,6 +472,11 @@ fn run_str<'gc>(mc: &'gc Mutation<'gc>, base: u32, len: usize, stage: Stage, met
                 obs::capture_on();
                 let b = GcStrBuilder::new(len);
                 ex.block = obs::capture_off_seq().last().copied();
+            // quarantine and poison the block as soon as it is released, so that anything the builder
+            // touches after giving the memory back reads poison
+            if let Some((b, _)) = ex.block {
+                obs::watch(b, b);
+            }
                 let g = b.copy_str(mc, &s);
                 if &*g != s.as_str() {
                     errs.push(format!("{}: contents differ", ex.class));
@@ -455,6 +495,11 @@ fn run_sized<'gc, T: Part + Collect<'gc>>(mc: &'gc Mutation<'gc>, base: u32, sta
             obs::capture_on();
             let b = $b;
             ex.block = obs::capture_off_seq().last().copied();
+            // quarantine and poison the block as soon as it is released, so that anything the builder
+            // touches after giving the memory back reads poison
+            if let Some((b, _)) = ex.block {
+                obs::watch(b, b);
+            }
             if complete {
                 let g = b.write(mc, T::make(base));
                 ex.completed = true;
